@@ -154,11 +154,14 @@ package parquet
 //@ loop (*Metadata).Footer#1
 //@   invariant wfault == old(wfault) && snkPos == old(snkPos) && snkB == old(snkB) && freshOrNil(fmd.RowGroups) && fmd != nil && freshsince(fmd) && 0 <= rangeindex + 1 && rangeindex + 1 <= #m.rowGroups
 //@   invariant[C06] fmd.NumRows == rowsSum(HA(m.rowGroups), off(m.rowGroups), rangeindex + 1) && #fmd.RowGroups == groupsKept(HA(m.rowGroups), off(m.rowGroups), rangeindex + 1)
+//@   invariant[C02] #fmd.RowGroups == 0 ==> pos == 4
 //@ loop (*Metadata).Footer#2
 //@   invariant wfault == old(wfault) && snkPos == old(snkPos) && snkB == old(snkB) && freshOrNil(rg.Columns) && freshOrNil(fmd.RowGroups) && fmd != nil && freshsince(fmd)
 //@   invariant[C02] forall t in 0..#rg.Columns: allocated(rg.Columns[t])
 //@   invariant[C02] forall t in 0..#rg.Columns - 1: rg.Columns[t + 1].FileOffset == cEnd(rg.Columns[t])
 //@   invariant[C02] #rg.Columns >= 1 ==> pos == cEnd(rg.Columns[#rg.Columns - 1])
+//@   invariant[C02] #fmd.RowGroups == 0 && #rg.Columns == 0 ==> pos == 4
+//@   invariant[C02] #fmd.RowGroups == 0 && #rg.Columns >= 1 ==> rg.Columns[0].FileOffset == 4
 //@   invariant[C06] fmd.NumRows == rowsSum(HA(m.rowGroups), off(m.rowGroups), rangeindex$1 + 1) && #fmd.RowGroups == groupsKept(HA(m.rowGroups), off(m.rowGroups), rangeindex$1 + 1) && rg.NumRows == m.rowGroups[rangeindex$1 + 1].rowGroup.NumRows && rg.NumRows != 0 && 0 <= rangeindex$1 + 1 && rangeindex$1 + 1 < #m.rowGroups
 
 //@ func schemaElements
